@@ -81,6 +81,7 @@ def run(P, C, tier):
     C.rule("R3", "the concatenation is uniquely decodable: at most one variable-width or optional segment without a length/presence prefix")
     C.rule("R4", "each digest starts with a constant tag distinct per kind")
     C.rule("R5", "the raw signing service signs only digests computed locally over locally chosen data")
+    C.rule("R7", "each digest input is an injective image of the stored field (no parsing / normalising step between the field and Hasher::update)")
     C.rule("R6", "a Node handed to the generic write channel for a room was signed in the same function (or comes from a verified batch)")
     seqs = {}
     for kind, spec in DIGESTS.items():
@@ -108,6 +109,23 @@ def run(P, C, tier):
             C.ob("R1", "%s:%s:no-foreign-input" % (kind, role), not extra, b.loc(), "digest inputs outside the struct: %s" % (sorted(extra) or "none"), nontrivial=False)
             # finalize is reached from every update (one digest)
             C.ob("R1", "%s:%s:finalized" % (kind, role), len(b.calls_to(r"blake3::Hasher::finalize$")) == 1, b.loc(), "one finalize", nontrivial=False)
+        # ---- R7: each digest input is an injective image of the stored field
+        INJECTIVE = r"(::as_bytes$|::to_le_bytes$|::to_be_bytes$|Deref>::deref$|::as_ref$|::as_slice$|::as_str$|serde_json::to_string$|serde_json::ser::to_string$|Try>::branch$|::borrow$|::clone$|AsRef<.*>::as_ref$)"
+        for fn in spec["fns"]:
+            b = P.body(fn, required=False)
+            if b is None:
+                continue
+            for bi, t in sorted(b.calls_to(r"blake3::Hasher::update$"), key=lambda x: b.line_of(x[0])):
+                a = b.call_args(bi, expand_vars=True)[1]
+                stray = sorted({mir.short(x[1]) for x in mir.subterms(a) if x[0] == "call" and not re.search(INJECTIVE, x[1])})
+                name = canon(field_path(mir.has_call(a, r"::to_le_bytes$")[2][0]) if mir.has_call(a, r"::to_le_bytes$") is not None else field_path(a))
+                if name.startswith("<"):
+                    # the root is a call that is not transparent: name the field by the first field access inside
+                    flds = [x[2] for x in mir.subterms(a) if x[0] == "field" and not x[2].isdigit()]
+                    name = canon(flds[0]) if flds else name
+                C.ob("R7", "%s:%s:%s" % (kind, fn.split("::")[-1], name), not stray, b.loc(bi),
+                     "the bytes fed for `%s` are the stored field through injective steps only (as_bytes, to_le_bytes, serde_json::to_string of the field itself)%s" % (
+                         name, "" if not stray else "; through %s: two different stored values get the same digest (e.g. a parsed and re-serialised JSON text loses key order, duplicates and spacing)" % stray))
         seqs[kind] = per_fn
         # ---- R2
         if len(spec["fns"]) == 2 and len(per_fn) == 2:
